@@ -749,3 +749,68 @@ def anchor_links(ctx):
         else:
             ctx.inconclusive.append(f"vacuity: '{lab}' never reached")
     ctx.sample({"paths": E.paths})
+
+
+# ---------------------------------------------------------------------------------------
+# O7: the relurl filter makes an absolute link into the output directory relative from a page at ANY nesting depth
+# ---------------------------------------------------------------------------------------
+RU_PAGES = ["index.html", "module/m.html", "lists/modules.html", "page/index.html", "page/a/index.html", "page/a/b/tuning.html", "page/a/b/c/deep.html"]
+RU_TARGETS = ["index.html", "page/index.html", "module/m.html", "page/a/b/tuning.html", "type/t.html#variable-x", "media/logo.png"]
+RU_FORMS = [("<a href='{u}'>name</a>", "anchor"), ("{u}", "bare path"), ("<a href=\"{u}\" class=\"x\">name</a> trailing text", "anchor with text")]
+
+
+def _ru_expected(page, target):
+    import os
+    path, _, frag = target.partition("#")
+    rel = os.path.relpath("/srv/out/" + path, os.path.dirname("/srv/out/" + page))
+    return rel + ("#" + frag if frag else "")
+
+
+def replay_relurl(w):
+    import pathlib
+    import re as _re
+    import ford.output as out
+    text = w["form"].replace("{u}", "/srv/out/" + w["target"])
+    got = out.relative_url(text, pathlib.Path("/srv/out/" + w["page"]))
+    m = _re.search(r"""href=['"]([^'"]*)['"]""", str(got))
+    href = m.group(1) if m else str(got).split()[0]
+    want = _ru_expected(w["page"], w["target"])
+    return href != want, {"page": w["page"], "link target": w["target"], "form": w["form"], "relurl gives": str(got), "relative path from that page": want}
+
+
+@obligation("C09", "O7.relurl-from-every-depth", engine="SX(CV)", timeout=600)
+def relurl_depth(ctx):
+    """relative_url (the `relurl` template filter) for a symbolic page (front page, entity page, list page, static pages nested 0-3 deep)
+    and a symbolic link into the output directory (page, fragment, media file; anchor / bare path): the result is the relative path
+    from that page"""
+    import ford.output as out
+
+    ctx.encode_fn(out.relative_url)
+    ctx.bounds.update({"pages": RU_PAGES, "targets": RU_TARGETS, "forms": [f[1] for f in RU_FORMS]})
+    ctx.stubs.append("BeautifulSoup / pathlib need concrete text: one path per (page, target, form)")
+
+    def h(E):
+        pg = CV.choice(E, "page", RU_PAGES).concretize()
+        tg = CV.choice(E, "target", RU_TARGETS).concretize()
+        fm = CV.choice(E, "form", list(range(len(RU_FORMS)))).concretize()
+        snap = {"page": pg, "target": tg, "form": RU_FORMS[fm][0]}
+        E.e.snapshot = lambda m: dict(snap)
+        from fv import patch as _p
+        with _p.suspended():
+            bad, detail = replay_relurl(snap)
+        E.reachable("converted")
+        E.require(not bad, f"link from a page at depth {pg.count('/')} is not the relative path to its target")
+
+    E = sym.Engine(ctx, max_paths=1000, incremental=True)
+    found = E.explore(h)
+    seen = set()
+    for (label, m, pc), snap in zip(found, E.snapshots):
+        if label in seen or not snap:
+            continue
+        seen.add(label)
+        ctx.report(label, snap, replay_relurl)
+    if E.reached.get("converted"):
+        ctx.twins += 1
+    else:
+        ctx.inconclusive.append("vacuity: nothing converted")
+    ctx.sample({"paths": E.paths})
